@@ -154,6 +154,14 @@ move=> hcss hcs hi; split; first exact: dzl_share_correct.
 exact: dzl_sk_correct.
 Qed.
 
+(* ---- GenerateSplitKeys: the scalars read from the split keys' bytes are the model's keys ---- *)
+Lemma dzl_split_correct sk ks :
+  dzl_can sk -> dzl_cans ks -> map phi (dz_split p sk ks) = dkg_split (phi sk) (map phi ks).
+Proof.
+move=> hsk hks; rewrite /dz_split /dkg_split -cats1 -dzl_mapE List.map_app !dzl_mapE /=.
+by rewrite dzl_phi_sub_mod ?dzl_sum_correct //; apply: dzl_sum_can.
+Qed.
+
 (* ---- ValidateShare, with G2 = F, g2 = 1 ---- *)
 Let V := [lmodType F of F^o].
 
